@@ -406,3 +406,43 @@ func ZZ_C04_Prune(ka, kb, kc, n int) {
 	}
 	zzvrf.Reach("end")
 }
+
+// ZZ_C05_Lost: two steps of ONE dependent task with two referenced
+// integrations. Both have recorded one position when the first step runs;
+// then the first one loses its only position (its own reorg deleted it, it
+// has recorded nothing since) while the other stays ahead. The second step
+// must do nothing: a referenced integration without progress holds the
+// dependent back whatever an earlier step saw.
+func ZZ_C05_Lost(batch int) {
+	zzReset()
+	zzvrf.Unwind(batch + 3)
+	head := zzvrf.U64("head")
+	zzvrf.Assume(head > 1 && head < 1<<62)
+	src := &zzSource{withHash: true, headFixed: true, head: head}
+	zzPreState("s", "ig", 1, 1)
+	zzPreState("s", "d1", 1, 1)
+	zzPreState("s", "d2", 1, 1)
+	t := zzTask(src, "s", "ig", batch, 1, 0, 0, []string{"d1", "d2"})
+	_, panicked := zzConverge(t)
+	zzvrf.Assert(!panicked, "no-panic")
+	if panicked {
+		return
+	}
+	if p := zzFind(&zzCommitted, "s", "d1"); p != nil {
+		p.cur = nil
+	}
+	before := zzFind(&zzCommitted, "s", "ig")
+	if before == nil {
+		zzvrf.Reach("end")
+		return
+	}
+	nIns, nCur := len(before.insLog), len(before.cur)
+	_, panicked = zzConverge(t)
+	zzvrf.Assert(!panicked, "no-panic")
+	if panicked {
+		return
+	}
+	after := zzFind(&zzCommitted, "s", "ig")
+	zzvrf.Assert(after != nil && len(after.insLog) == nIns && len(after.cur) == nCur, "does-nothing-while-a-reference-has-lost-its-progress")
+	zzvrf.Reach("end")
+}
